@@ -64,6 +64,11 @@ impl<R: Read + Seek> ReadBox<&mut R> for IlstBox {
                 ));
             }
 
+            // Break if size zero BoxHeader, which can result in dead-loop.
+            if s == 0 {
+                break;
+            }
+
             match name {
                 BoxType::NameBox => {
                     items.insert(MetadataKey::Title, IlstItemBox::read_box(reader, s)?);
@@ -138,6 +143,11 @@ impl<R: Read + Seek> ReadBox<&mut R> for IlstItemBox {
                 return Err(Error::InvalidData(
                     "ilst item box contains a box with a larger size than it",
                 ));
+            }
+
+            // Break if size zero BoxHeader, which can result in dead-loop.
+            if s == 0 {
+                break;
             }
 
             match name {
